@@ -134,8 +134,12 @@ def run_shard(spec, ctx):
             d1 = ser.deserialize(c1)
             fns = {'get_resolution': (lambda x=c1: ser.get_resolution(x)), 'deserialize': (lambda x=c1: key_of(ser.deserialize(x))),
                    'serialize': (lambda d=d1: ser.serialize(d))}
+            if ser.get_resolution(c1) < 29:
+                # an enumeration encodes several ids in one call
+                fns['children'] = (lambda x=c1: a5.cell_to_children(x))
             B = ctx.rnd.choice([lambda x=c2: ser.get_resolution(x), lambda x=c2: key_of(ser.deserialize(x)),
-                                lambda x=c2: ser.serialize(ser.deserialize(x))])
+                                lambda x=c2: ser.serialize(ser.deserialize(x)),
+                                lambda x=c2: a5.cell_to_children(x, min(29, ser.get_resolution(x) + 1))])
             wantB = B()
             for name, A in fns.items():
                 want = A()
